@@ -89,7 +89,7 @@ def gen_slot(kinds=('g',)):
 # ------------------------------------------------------------------ random strings
 POOL_ASCII = list("abcXYZ019") + list("-._~!$'()*,;:") + list(" \"<>%@?#`{}/+&=|\\^[]") + ['\t', '\x01', '\x7f']
 POOL_UNI = ['é', 'Æ', 'ß', 'ǅ', 'İ', '日', '𝄞', '́', 'K', 'ſ', 'Σ', 'ΑΣ', 'ς']
-ODD = ['...', '....', '.a', 'a.', '..a', '. .', '%', '+', 'a b', '.', '..', '-', '_', '%2F', 'a%zz', '%%', '\\', 'A', 'é', ':', ',', 'a:b,c:d']
+ODD = ['@scope/name', '@a/b', 'a/b', '/a', 'a/', '@', '@x', 'x@y', 'İ_b', 'İ', 'École_Δ', 'Ångström.Units', '...', '....', '.a', 'a.', '..a', '. .', '%', '+', 'a b', '.', '..', '-', '_', '%2F', 'a%zz', '%%', '\\', 'A', 'é', ':', ',', 'a:b,c:d']
 def rstr(rng, lo=1, hi=6, exclude=''):
     if lo >= 1 and rng.random() < 0.12:
         o = rng.choice(ODD)
@@ -409,6 +409,12 @@ def gen_names(rng, tier):
         for ty, idx in (('nuget', 5), ('pypi', 6)) if light else (('nuget', 5), ('pypi', 6), ('cargo', 0)):
             yield f'P t {hx("pkg:" + ty + "/" + e)}'
             if not light: yield f'B t {idx} {hx(n)} -'
+    for n in ['@scope/name', '@a/b', 'a/b', '/a', 'a/', '@x', 'İ_b', 'İ.b', 'İ', 'École_Δ', 'Ångström.Units', 'My.Äpp', 'a\u0301_B', '𝄞-Ａ', 'ß_ẞ', 'ǅ-ǅ']:
+        e = ''.join('%%%02X' % b for b in n.encode())
+        for ty in SEVEN:
+            yield f'P t {hx("pkg:" + ty + "/g/" + e)}'
+            yield f'P t {hx("pkg:" + ty + "/" + e)}'
+            yield f'B t {SEVEN.index(ty)} {hx(n)} S:{hx("g")}'
     alpha = ['a', 'A', '1', '-', '_', '.', 'Æ', 'ǅ'] + [c for c in EXTRA['chars'] if c not in 'aA1-_.'][:2]
     for n in ['ΟΔΟΣ', 'ΑΣ', 'aΣ', 'Σ', 'ΑΣ-Σ', 'ΑΣa', 'AÆ', 'MyÆsir.Core', 'aΣ.bΣ', 'İ', 'ẞ', 'ſK']: yield from cases(n)
     for k in range(1, 5 if tier == 'quick' else 6):
@@ -487,7 +493,7 @@ def gen_build(rng, nrand, exhaustive_len=1, kinds=('g', 't')):
         yield f'B {kind} {rng.choice(tyv)} {hx(rng.choice(["n", "", "N-_.m", rstr(rng, 0, 4)]))} {",".join(seq)}'
 
 # ------------------------------------------------------------------ G-qops
-QK = ['a', 'A', 'b', 'B', 'a.b', 'a_b', 'ab', '', '!', 'repository_url', 'checksum', 'é', 'K', 'vcs_url', 'Type', 'download_url', 'file_name', 'platform', 'classifier']
+QK = ['a', 'A', 'b', 'B', 'a.b', 'a_b', 'ab', '', '!', 'repository_url', 'checksum', 'é', 'K', 'buildtag', 'BuildTag', 'x-y.z_1', 'vcs_url', 'Type', 'download_url', 'file_name', 'platform', 'classifier']
 QV = ['', 'x', 'y']
 def qop_universe():
     ops = ['C', 't', 'l', 'tg', 'tc', 'td', 'tG', f'M:{hx("s")}', f'I:{hx("s")}', f'J:{hx("z")}', f'tr:{hx("u")}', f'tr:-']
@@ -498,6 +504,9 @@ def qop_universe():
             ops += [f'i:{hx(k)}:{hx(v)}', f'm:{hx(k)}:{hx(v)}', f'X:{hx(k)}:{hx(v)}', f'eo:{hx(k)}:{hx(v)}', f'ew:{hx(k)}:{hx(v)}',
                     f'ei:{hx(k)}:{hx(v)}', f'em:{hx(k)}:{hx("+")}:{hx(v)}']
     ops += [f'tC:{c}' for c in CSOPS[:6]]
+    for i in range(3):
+        ops += [f'tu:{i}:{hx("t" + str(i))}', f'tug:{i}', f'tud:{i}']
+    ops += ['wc:8', 'wc:0', 're:0', 're:1', 're:2', 're:5', 'rv:0', 'rv:1', 'rv:3']
     for i in range(7):
         ops += [f'tk:{i}:{hx("v" + str(i))}', f'tk:{i}:-', f'tkg:{i}', f'tkd:{i}']
     return ops
@@ -583,6 +592,13 @@ def gen_pt(rng, n, maxlen=3):
     for t in OTHER_TYPES: yield 'T ' + hx(t)
     for _ in range(n):
         yield 'T ' + hx(rstr(rng, 0, 8))
+def gen_comb_purl(rng, n):
+    for s in ['pkg:golang/google.golang.org/genproto#googleapis/api/annotations', 'pkg:golang/a/b@v1?x=y#s/t', 'pkg:npm/%40s/n@1#lib', 'pkg:maven/g.i/a@1?type=pom#x', 'pkg:cargo/n#s', 'pkg:pypi/A_b#s/t', 'pkg:nuget/N@1#x', 'pkg:gem/g?platform=java#lib']:
+        yield f'M {hx(s)}'
+    for _ in range(n):
+        t = random_tuple(rng, typed=True)
+        if t['ty'] not in SEVEN: t['ty'] = rng.choice(SEVEN)
+        yield f'M {hx(spelling_of(rng, t))}'
 def gen_comb(rng, n):
     parts = ['', 'a', 'B', 'a/b', 'a/b/c', '/', 'a/', '/a', ':', 'a:b', 'a:b:c', 'g:a/b', 'a/b:c', ':a', 'a:', 'é/ü:x', '@s/p', 'a//b', 'A_.b', 'Æ/ǅ']
     for i in range(7):
@@ -598,6 +614,11 @@ def gen_pair(rng, n, kinds=('g', 't', 's', 'b', 'o')):
              ('pkg:t/n?k=v#s', 'pkg:t/n?k=v%23s'), ('pkg:t/n@v?k=1', 'pkg:t/n@v%3Fk=1'), ('pkg:T/n', 'pkg:t/n'), ('pkg:t/n', 'pkg:t/N')]
     for a, b in fixed:
         for k in ('g', 's'): yield f'K P {k} {hx(a)} ~ P {k} {hx(b)}'
+    for t1, t2 in [('Npm', 'npm'), ('NPM', 'npm'), ('nPm', 'Npm'), ('T.y+P', 't.y+p'), ('a', 'A')]:
+        for k in 'gsbo':
+            for k2 in ('bo' if k in 'bo' else k):
+                yield f'K B {k} {hx(t1)} {hx("n")} - ~ B {k2} {hx(t2)} {hx("n")} -'
+                yield f'K B {k} {hx(t1)} {hx("n")} V:{hx("1")} ~ B {k2} {hx(t2)} {hx("n")} V:{hx("1")}'
     for x in ['/', '//', '///', 'a/', '/a', 'a//b', '.', '..', './a', 'a/..']:
         for y in ['', 'a', 'a/b', '/']:
             for f in 'SU':
